@@ -211,6 +211,11 @@ def max_depth(synset: 'Synset', simulate_root: bool = False) -> int:
     )
 
 
+def _synset_sort_key(synset: 'Synset') -> tuple[int, str]:
+    # inferred synsets all share one (non-)rowid; their ILI tells them apart
+    return (synset._id, synset._ili or '')
+
+
 def _shortest_hyp_paths(
         synset: 'Synset', other: 'Synset', simulate_root: bool
 ) -> dict[tuple['Synset', int], list['Synset']]:
@@ -242,7 +247,7 @@ def _shortest_hyp_paths(
                         depths[ss] = depth
 
     shortest: dict[tuple[Synset, int], list[Synset]] = {}
-    for ss in sorted(common):  # fixed order: results must not depend on set order
+    for ss in sorted(common, key=_synset_sort_key):  # fixed order: results must not depend on set order
         from_self_subpaths, from_other_subpaths = subpaths[ss]
         shortest_from_self = min(from_self_subpaths, key=len)
         # for the other path, we need to reverse it and remove the pivot synset
@@ -318,7 +323,7 @@ def common_hypernyms(
     from_self = _hypernym_paths(synset, simulate_root, True)
     from_other = _hypernym_paths(other, simulate_root, True)
     common = set(flatten(from_self)).intersection(flatten(from_other))
-    return sorted(common)
+    return sorted(common, key=_synset_sort_key)
 
 
 def lowest_common_hypernyms(
